@@ -12,23 +12,7 @@ Record wf_C13 (sc : scen) (c : nat) (m : mode) (s : shape) (t : tid) : Prop := {
   wf13_sh : m = Sh -> forall k l, In (k, l) (kleaves s) -> k = KRw
 }.
 
-Lemma hstep_some e nl np h t o p out w' :
-  h_stop h = false -> api_prog e (h_loc h t) o = Some p ->
-  run nopw t p (clear_trace (h_w h)) = (out, w') ->
-  hstep e nl np h (t, o) =
-  (mkh w' (upd (h_loc h) t (fst (api_fin e (h_loc h t) o out))) (stops (snd (api_fin e (h_loc h t) o out))),
-   [mkco t (snd (api_fin e (h_loc h t) o out)) (rev (w_trace w')) (snapshot_holds nl w') (snapshot_psn np w')
-          (negb (w_keyf w' t))]).
-Proof.
-  intros Hs Hp Hr. unfold hstep. rewrite Hs, Hp, Hr.
-  destruct (api_fin e (h_loc h t) o out). reflexivity.
-Qed.
 
-Lemma hstep_none e nl np h t o :
-  h_stop h = false -> api_prog e (h_loc h t) o = None ->
-  hstep e nl np h (t, o) =
-  (h, [mkco t RSkipped [] (snapshot_holds nl (h_w h)) (snapshot_psn np (h_w h)) (negb (w_keyf (h_w h) t))]).
-Proof. intros Hs Hp. unfold hstep. now rewrite Hs, Hp. Qed.
 
 Lemma hrun3 e nl np h x1 x2 x3 h1 o1 h2 o2 h3 o3 :
   hstep e nl np h x1 = (h1, [o1]) -> hstep e nl np h1 x2 = (h2, [o2]) -> hstep e nl np h2 x3 = (h3, [o3]) ->
@@ -40,8 +24,6 @@ Lemma api_fin_try_ok e lc c m s :
   api_fin e lc (AAcquire c m FTry) (ODone (VNat 0)) = (mkt false (Some (mkg m (gitems s))), ROk).
 Proof. intros H. cbn. rewrite H. reflexivity. Qed.
 
-Lemma quiet_clear w : quiet w -> quiet (clear_trace w).
-Proof. intros [A [B C]]. repeat split; assumption. Qed.
 
 Lemma rawst_sim_refl s : rawst_sim s s = true.
 Proof.
